@@ -185,3 +185,26 @@ func BuildPKI(spec PKISpec) (map[string]*BuiltCert, error) {
 	}
 	return out, nil
 }
+
+var (
+	selfSignedMu    sync.Mutex
+	selfSignedCache = map[string]string{}
+)
+
+// SelfSignedPEM returns a (per process) self-signed certificate of the key, PEM encoded.
+func SelfSignedPEM(k *TestKey) string {
+	selfSignedMu.Lock()
+	defer selfSignedMu.Unlock()
+	if p, ok := selfSignedCache[k.Name]; ok {
+		return p
+	}
+	tmpl := &x509.Certificate{SerialNumber: big.NewInt(time.Now().UnixNano()), Subject: pkix.Name{CommonName: "self-signed " + k.Name},
+		NotBefore: time.Now().Add(-time.Hour), NotAfter: time.Now().Add(48 * time.Hour), KeyUsage: x509.KeyUsageDigitalSignature}
+	der, err := x509.CreateCertificate(rand.Reader, tmpl, tmpl, k.Priv.Public(), k.Priv)
+	if err != nil {
+		return ""
+	}
+	p := string(pem.EncodeToMemory(&pem.Block{Type: "CERTIFICATE", Bytes: der}))
+	selfSignedCache[k.Name] = p
+	return p
+}
